@@ -19,7 +19,7 @@ def P(**kw):
 NOT_APPLICABLE = {}
 HOOK_COMMITS = []
 ENGINES = [
-    dict(name="bfs", path="engine/bfs.hh", serves=["C12", "C13"], kind="explicit-state BFS over real objects (state = replayed operation history, white-box canonical form)"),
+    dict(name="bfs", path="harness/bfs.hh", serves=["C12", "C13"], kind="explicit-state BFS over real objects (state = replayed operation history, white-box canonical form)"),
     dict(name="sched", path="engine/sched.hh", serves=["C16"], kind="serialising thread scheduler + DFS over all interleavings with visited-state pruning"),
     dict(name="env", path="engine/env.hh", serves=["C14", "C15"], kind="deviation-bounded enumeration of environment answers behind link-time interposed libc calls"),
 ]
